@@ -186,6 +186,11 @@ structure World where
   fops : List Bool := []
   sops : List Bool := []
   shutdownDone : Bool := false
+  /-- `poll_shutdown` has been called at least once -/
+  shutdownCalled : Bool := false
+  /-- the read side has reported EOF / a reset to the dispatcher -/
+  eofSeen : Bool := false
+  resetSeen : Bool := false
   /-- request-body channels, by request id -/
   chans : List Chan := []
   /-- the task that owns a moved payload: request id and remaining script -/
@@ -233,9 +238,9 @@ def sockRead (q : Nat) : Nat → World → ReadRes × World
     match w.rops with
     | [] =>
       if w.wireLeft > 0 then sockRead q fuel { w with rops := [.bytes w.wireLeft] }
-      else (.eof, w)
-    | .eof :: _ => (.eof, w)
-    | .reset :: _ => (.reset, w)
+      else (.eof, { w with eofSeen := true })
+    | .eof :: _ => (.eof, { w with eofSeen := true })
+    | .reset :: _ => (.reset, { w with resetSeen := true })
     | .silent :: _ => (.pending, { w with silentWaiting := true })
     | .barrier :: rest =>
       match w.barrier .r with
@@ -284,6 +289,7 @@ def sockFlush : Nat → World → Bool × World
 def sockShutdown : Nat → World → Bool × World
   | 0, w => (false, w)
   | fuel + 1, w =>
+    let w := { w with shutdownCalled := true }
     match w.sops with
     | [] => (true, { w with shutdownDone := true })
     | false :: rest => (true, { w with sops := rest, shutdownDone := true })
@@ -892,6 +898,8 @@ def poll (e : Env) (bigFuel : Nat) : Nat → D → World → PollRes × D × Wor
         match readAvailable e d w with
         | (.err, d, w) => (.err .ioReset, d, w)
         | (.ok shouldDisconnect, d, w) =>
+          -- fix (C04): `read_available` stopped at the cap: the read waker is not registered
+          let readBufWasFull := decide (d.rb ≥ Consts.h1MaxBufferSize)
           let d :=
             if d.rb > 0 && d.flags.keepAlive then
               { d with flags := { d.flags with keepAlive := false }, kaTimer := .inactive }
@@ -928,11 +936,13 @@ def poll (e : Env) (bigFuel : Nat) : Nat → D → World → PollRes × D × Wor
               else if stNone && d.wlen = 0 && d.flags.shutdown then
                 poll e bigFuel depth d w
               else
-                -- fix (C04): a payload dropped after `poll_request` saw it paused leaves buffered
-                -- input that nothing would wake the task for
+                -- fix (C04): a payload dropped after this poll saw it paused leaves buffered
+                -- input (and, at the cap, an unregistered socket) that nothing would wake the
+                -- task for
                 let drainDropped :=
                   (match d.payload with | some rid => isDropped w rid | none => false) &&
-                  d.rb > 0 && !d.flags.readDisc && d.messages.length < Consts.h1MaxPipelined
+                  (d.rb > 0 || readBufWasFull) && !d.flags.readDisc &&
+                  d.messages.length < Consts.h1MaxPipelined
                 if drainDropped || d.flags.linger || d.flags.shutdown then (.pending, d, w.wake)
                 else (.pending, d, w)
 
